@@ -62,6 +62,11 @@ def _seeded_mutants(prop):
         if prop in meta.get("checks_reporting_it", []):
             out.append({"name": "seeded-" + d, "patch": pp, "expect": "violated", "rule": prop, "canary": False,
                         "what": "independently seeded change %s (target property %s)" % (d, meta.get("property"))})
+        for b in meta.get("benign_parts", []):
+            bp = os.path.join(root, d, b["file"])
+            if prop in b.get("clean_for", []) and os.path.isfile(bp):
+                out.append({"name": "benign-%s-%s" % (d, b["file"][len("benign_"):-len(".diff")]), "patch": bp, "expect": "clean", "canary": False,
+                            "what": "behaviour-preserving part of seeded change %s" % d})
     return out
 
 
